@@ -397,6 +397,19 @@ func runC15(r *core.Run) {
 			})
 	}
 	nbhdSub(r, "nbhd-spec/all+autoid", core.MustCfg("all+autoid"), func(s *core.Sub, cv *core.Conv, w []byte) { c15Generic(s, cv, w) })
+	// headings nested in n containers for EVERY n: all containers end in the same step as the heading (end of input, blank
+	// line, a less indented line)
+	{
+		var docs [][]byte
+		for n := 1; n <= core.Pick(r, 120, 400); n++ {
+			q, l := strings.Repeat("> ", n), strings.Repeat("- ", n)
+			docs = append(docs, []byte(q+"# deep"), []byte(q+"# deep\n\n# top\n"), []byte(q+"deep\n"+q+"===\n\ntop\n---\n"), []byte(l+"# deep\n# top\n"), []byte(l+"# deep\n\n"+l+"# deep\n"))
+		}
+		for _, cn := range []string{"core+autoid", "all+autoid+xhtml"} {
+			docsSub(r, "depth-ladder/"+cn, "a heading inside n block quotes / n nested list items for EVERY n, closed together with all its containers by the end of input, a blank line or an unindented line, under "+cn+": every heading carries a non-empty id, ids pairwise distinct",
+				core.MustCfg(cn), docs, func(s *core.Sub, cv *core.Conv, w []byte) { c15Generic(s, cv, w) })
+		}
+	}
 	// automatic ids switched on through every channel the API offers: added to the parser after construction, handed to the
 	// heading parsers' own constructors in a hand-built block parser list, through the generic name/value parser option
 	for _, cn := range []string{"core+autoid+via=2", "core+autoid+via=5", "all+autoid+via=5", "core+autoid+via=6", "all+autoid+xhtml+via=6", "core+autoid+via=7", "all+autoid+attr+xhtml+via=7"} {
